@@ -52,6 +52,10 @@ def frozen_calls(st, locs):
     defs = st.defs
     for i, t in enumerate(locs):
         out.append((("val", t), t in defs))
+        if t.startswith("K-"):
+            # members of the dict with hash-colliding keys are plain inputs only
+            out.append((("iadd", t), False))
+            continue
         cands = U.candidates(t, locs, False)
         dsc = cands[0]
         nd = dict(defs)
@@ -213,7 +217,7 @@ def run_case(ex, case):
         ex.fail(f"after unfreeze_tree() {bad} differ from a never-frozen twin", {"history": list(st.hist)})
         return
     # one more operation on both, then a follow-up assignment to every location
-    ops = c03.list_ops(st.defs, locs)
+    ops = [o for o in c03.list_ops(st.defs, locs) if not str(o[1]).startswith("K-")]
     op = ops[ex.choose(len(ops))]
     outs = []
     n0 = st.nv
@@ -278,6 +282,15 @@ def cases(tier):
             n = len(_calls_for(st_defs, LOCS))
             for i in range(n):
                 out.append({"build": "pure", "locs": LOCS, "defs": m, "nfrozen": 2, "first": i})
+        # inputs with hash-colliding keys (-1 / -2) and different dependants
+        KL = ["a", "b", "K-1", "K-2"]
+        for m in ([["a", ["mul", ["loc", "K-1"], ["const", 2]]], ["b", ["add", ["loc", "K-2"], ["const", 1]]]],
+                  [["a", ["add", ["loc", "K-1"], ["loc", "K-2"]]], ["b", ["neg", ["loc", "K-2"]]]],
+                  [["b", ["sub", ["loc", "K-1"], ["loc", "a"]]]]):
+            st_defs = {t: c01._tup(d) for t, d in m}
+            n = len(_calls_for(st_defs, KL))
+            for i in range(n):
+                out.append({"build": "pure", "locs": KL, "defs": m, "nfrozen": 2, "first": i})
     else:
         L4 = ["a", "b", "n.x", "l0"]
         for b in ("pure", "compiled"):
